@@ -299,7 +299,12 @@ def run(ctx):
             if raised is not None or not snaps:
                 continue
             s = snaps[0]
-            variation = rng.choice(["none", "none", "error-watch", "log", "attrs", "huge", "empty"])
+            variation = rng.choice(["none", "none", "error-watch", "log", "attrs", "huge", "empty", "method-tracepoint"])
+            if variation == "method-tracepoint":
+                # a tracepoint placed on a METHOD has no line of its own: the agent holds -1 for it (FunctionLocation.line)
+                from deep.api.tracepoint.tracepoint_config import TracePointConfig
+                tp_ = s.tracepoint
+                s._tracepoint = TracePointConfig(tp_.id, tp_.path, -1, dict(tp_.args, method_name="handler"), list(tp_.watches), [])
             if variation == "error-watch":
                 s.add_watch_result(WatchResult("WATCH", "bad \ud800 expr", None, rng.choice(["boom", "lone \udfff", ""])))
             elif variation == "log":
